@@ -183,7 +183,7 @@ class Baton(object):
         self.to_harness = threading.Semaphore(0)
         self.dead = False
         self.stalled = False
-        self.stall_timeout = 20
+        self.stall_timeout = 60
         self.error = None
         self.where = None  # label of the current pause point
 
